@@ -22,6 +22,9 @@ import (
 type C17Op struct {
 	Op    string `json:"op"` // write | writev | flush | read
 	Sizes []int  `json:"sizes,omitempty"`
+	// Alias (writev): the segments are pieces of one buffer of the caller, handed over in reverse memory order, the
+	// first one with spare capacity that covers the others
+	Alias bool `json:"alias,omitempty"`
 }
 
 type C17Case struct {
@@ -148,7 +151,7 @@ func genC17(t *rapid.T) C17Case {
 		case 0, 1, 2:
 			return C17Op{Op: "write", Sizes: []int{size.Draw(t, "n")}}
 		case 3, 4, 5:
-			return C17Op{Op: "writev", Sizes: rapid.SliceOfN(size, 0, 4).Draw(t, "segs")}
+			return C17Op{Op: "writev", Sizes: rapid.SliceOfN(size, 0, 4).Draw(t, "segs"), Alias: rapid.IntRange(0, 3).Draw(t, "alias") == 0}
 		case 6, 7:
 			return C17Op{Op: "flush"}
 		default:
@@ -347,11 +350,35 @@ func runC17(c C17Case) (out core.Outcome) {
 			var segs net.Buffers
 			var keep [][]byte
 			total := 0
-			for _, n := range op.Sizes {
-				b := mk(n)
-				segs = append(segs, b)
-				keep = append(keep, append([]byte{}, b...))
-				total += n
+			if op.Alias && len(op.Sizes) >= 2 {
+				// memory layout: last segment first ... first segment last? no: first segment FIRST in memory with the
+				// others behind it in reverse order, so that appending to segment 0 in place overwrites them
+				sum := 0
+				for _, n := range op.Sizes {
+					sum += n
+				}
+				arena := make([]byte, sum, sum+8)
+				offs := make([]int, len(op.Sizes))
+				off := op.Sizes[0]
+				for j := len(op.Sizes) - 1; j >= 1; j-- {
+					offs[j] = off
+					off += op.Sizes[j]
+				}
+				for j, n := range op.Sizes {
+					b := arena[offs[j] : offs[j]+n]
+					copy(b, mk(n))
+					segs = append(segs, b)
+					keep = append(keep, append([]byte{}, b...))
+					total += n
+				}
+				cls.Add("writev-aliasing-segments")
+			} else {
+				for _, n := range op.Sizes {
+					b := mk(n)
+					segs = append(segs, b)
+					keep = append(keep, append([]byte{}, b...))
+					total += n
+				}
 			}
 			own := append([][]byte{}, segs...) // caller's references to the segment contents
 			if len(conn.got) < len(written) {
